@@ -1,6 +1,6 @@
 (* C16: restriction mode after a liquidation.  Statements only. *)
 From MP.Model Require Import Prelude U128 SInt Feed Vamm VammOps Token World Engine Runtime.
-From MP.Proofs Require Import Tactics EngineGuards MoreFacts.
+From MP.Proofs Require Import Tactics EngineGuards MoreFacts RestrictFacts.
 
 Theorem C16_guard_blocks : forall w v t,
   vm_lrb (read_vmap (w_eng w) v) = height (w_env w) ->
@@ -87,3 +87,25 @@ Theorem C16_partial_liquidation_no_stamp : forall w i o w' msgs tm,
     p_block p' = p_block (get_position (w_eng w) (w_env w) (ts_vamm tm) (ts_trader tm) (ts_side tm)).
 Proof. exact partial_liquidation_reply_no_stamp. Qed.
 Print Assumptions C16_partial_liquidation_no_stamp.
+
+(* END TO END through the whole message tree (any fault index): a successful Liquidate transaction leaves
+   the vAMM's marker at the current height; a successful OpenPosition transaction leaves the sender's stored
+   position stamped with the current height; and with both in place the trader's next OpenPosition /
+   ClosePosition on that vAMM fails and changes nothing *)
+Theorem C16_liquidate_tx_marks : forall f w s v t lim funds w',
+  exec_op f w (OEngine s (ELiquidate v t lim) funds) = Ok w' ->
+  vm_lrb (read_vmap (w_eng w') v) = height (w_env w) /\ w_env w' = w_env w.
+Proof. exact liquidate_tx_marks. Qed.
+Print Assumptions C16_liquidate_tx_marks.
+Theorem C16_open_position_tx_stamps : forall f w t v s m l lim funds w',
+  exec_op f w (OEngine t (EOpenPosition v s m l lim) funds) = Ok w' ->
+  (exists p, find_position (w_eng w') v t = Some p /\ p_block p = height (w_env w)) /\ w_env w' = w_env w.
+Proof. exact open_position_tx_stamps. Qed.
+Print Assumptions C16_open_position_tx_stamps.
+Theorem C16_restricted_after_both : forall f w t v s m l lim funds,
+  vm_lrb (read_vmap (w_eng w) v) = height (w_env w) ->
+  (exists p, find_position (w_eng w) v t = Some p /\ p_block p = height (w_env w)) ->
+  step_f f w (OEngine t (EOpenPosition v s m l lim) funds) = (w, false) /\
+  step_f f w (OEngine t (EClosePosition v lim) funds) = (w, false).
+Proof. exact restricted_after_both. Qed.
+Print Assumptions C16_restricted_after_both.
